@@ -270,11 +270,11 @@ pub fn scenario(ch: &mut Chooser, thorough: bool) -> Exec {
                 feats.push("dropped-socket");
             }
             2 => {
-                if !model[t].lo {
-                    pending.push((h, Cmd::Join { slot }));
-                    model[t].joined = true;
-                    obs.push(format!("host{h} slot{slot} join"));
-                }
+                // a socket bound to the loopback address may join too: whether it then sees
+                // group traffic itself is not asserted, but it must not disturb the others
+                pending.push((h, Cmd::Join { slot }));
+                model[t].joined = true;
+                obs.push(format!("host{h} slot{slot} join{}", if model[t].lo { " (loopback-bound socket)" } else { "" }));
             }
             3 => {
                 pending.push((h, Cmd::Broadcast { slot }));
@@ -395,7 +395,11 @@ pub fn scenario(ch: &mut Chooser, thorough: bool) -> Exec {
             // with IP_MULTICAST_LOOP off (on the sending socket or on the local member) whether a
             // member on the sender's own host sees the datagram is not asserted
             let dontcare: Vec<(usize, usize)> = if dst.ip().is_multicast() {
-                model.iter().filter(|m| m.alive && m.host == s.host && (m.loop_off || s.loop_off)).map(|m| (m.host, m.slot)).collect()
+                model
+                    .iter()
+                    .filter(|m| m.alive && ((m.host == s.host && (m.loop_off || s.loop_off)) || (m.lo && m.joined)))
+                    .map(|m| (m.host, m.slot))
+                    .collect()
             } else {
                 vec![]
             };
